@@ -313,4 +313,64 @@ theorem fixed_column (m : List α → List α → α) (d : Data α) (preds : Lis
 
 end num
 
+
+/-! ### what the regenerated decision leaves say today (round 3)
+
+Each lemma unfolds a definition of `Rsa.Gen.C04` that `harness/leaves/C04.py` cuts out of the
+current text of `inference/evaluate.py`; an edit of the test there (`>=` into `>`, another
+constant, a dropped conjunct) makes the lemma — and every property theorem using it — fail. -/
+
+theorem usableBoot_iff (bt : BootType) (n : Nat) :
+    usableBoot bt n = true ↔ (bt = .rdm ∨ 3 ≤ n) := by
+  cases bt <;>
+    simp only [usableBoot, Rsa.Gen.C04.usableBootstrap, Rsa.Gen.C04.usableBootstrapPattern,
+      beq_iff_eq, reduceCtorEq, false_or, true_or] <;>
+    (try split) <;> simp_all
+
+theorem foldNaN_iff (f : FoldV) :
+    foldNaN f = true ↔ (f.train.rows.length = 0 ∨ f.test.rows.length = 0 ∨
+      f.train.conds.length ≤ 2 ∨ f.test.conds.length ≤ 2) := by
+  simp only [foldNaN, Rsa.Gen.C04.foldNan, beq_iff_eq]
+  split <;> simp_all
+
+theorem ncByFolds_iff (kr kp : Nat) : ncByFolds kr kp = true ↔ (1 < kr ∨ 1 < kp) := by
+  simp only [ncByFolds, Rsa.Gen.C04.ncDispatchCv, beq_iff_eq]
+  split <;> simp_all
+
+theorem ncByFoldsRandom_iff (nr np : Nat) : ncByFoldsRandom nr np = true ↔ (0 < nr ∨ 0 < np) := by
+  simp only [ncByFoldsRandom, Rsa.Gen.C04.ncDispatchRandom, beq_iff_eq]
+  split <;> simp_all
+
+theorem cvUsable_iff (kr kp : Nat) (ri pi : List Nat) :
+    cvUsable kr kp ri pi = true ↔ (kr ≤ nUnique ri ∧ 3 * kp ≤ nUnique pi) := by
+  simp only [cvUsable, Rsa.Gen.C04.usableCv, beq_iff_eq]
+  split <;> simp_all
+
+theorem dualUsable_eq_cvUsable (kr kp : Nat) (ri pi : List Nat) :
+    dualUsable kr kp ri pi = cvUsable kr kp ri pi := by
+  simp only [dualUsable, cvUsable, Rsa.Gen.C04.usableDual, Rsa.Gen.C04.usableCv]
+
+theorem randomUsable_iff (nr np : Nat) (ri pi : List Nat) :
+    randomUsable nr np ri pi = true ↔ (nr < nUnique ri ∧ 3 + np ≤ nUnique pi) := by
+  simp only [randomUsable, Rsa.Gen.C04.usableRandom, beq_iff_eq]
+  split <;> simp_all
+
+theorem corrOn_iff (uc : Bool) (nCv : Nat) :
+    (corrOnCv uc nCv = true ↔ (uc = true ∧ 1 < nCv)) ∧
+    (corrOnDual uc nCv = true ↔ (uc = true ∧ 1 < nCv)) ∧
+    (corrOnRandom uc nCv = true ↔ (uc = true ∧ 1 < nCv)) := by
+  refine ⟨?_, ?_, ?_⟩ <;> cases uc <;>
+    simp only [corrOnCv, corrOnDual, corrOnRandom, Rsa.Gen.C04.correctionOnCv,
+      Rsa.Gen.C04.correctionOnDual, Rsa.Gen.C04.correctionOnRandom, beq_iff_eq] <;>
+    (try split) <;> simp_all
+
+theorem fixedCovDefined_iff (n : Nat) : fixedCovDefined n = true ↔ 1 < n := by
+  simp only [fixedCovDefined, Rsa.Gen.C04.fixedHasCov, beq_iff_eq]
+  split <;> simp_all
+
+theorem dualOptions_eq (kr kp nCv : Nat) (uc : Bool) :
+    dualOptions kr kp nCv uc = if kr = 1 ∧ kp = 1 then (1, false) else (nCv, uc) := by
+  simp only [dualOptions, Rsa.Gen.C04.dualNoCv]
+  by_cases h : kr = 1 ∧ kp = 1 <;> simp [h]
+
 end Rsa.Eval
